@@ -672,6 +672,89 @@ fn variants(sys: &Sys, t: f64, x: f64, s: f64, ntot: f64, pb: f64, pd: f64, bub:
             record(worst, kind, res, true, json!({"p_factor": f, "t_init": t_off.to_reduced()}));
         }
     }
+    // ---------------- bubble / dew points from POOR guesses (pressure off by a factor 0.5 .. 20, arbitrary composition guess):
+    // such starts may legitimately fail (TrivialSolution / NotConverged), but whatever is RETURNED has to be an equilibrium of
+    // two different phases with the specified composition in the specified phase
+    {
+        let tol = Tol { strict_roles: false, ..Tol::bubble_dew(1e-10) };
+        let facs = [1.5, 2.5, 4.0, 8.0, 20.0, 0.5];
+        let guesses: [Option<Array1<f64>>; 4] = [None, Some(arr1(&[0.5, 0.5])), Some(arr1(&[0.99, 0.01])), Some(arr1(&[0.01, 0.99]))];
+        for k in 0..6 {
+            let fac = facs[(k + rng.below(6)) % 6] * rng.range(0.9, 1.1);
+            let g = &guesses[rng.below(4)];
+            for bubble in [true, false] {
+                let pref = if bubble { pb } else { pd };
+                let kind = if bubble { "bubble_T_poor_guess" } else { "dew_T_poor_guess" };
+                let r = run_guard(|| {
+                    if bubble {
+                        Vle::bubble_point(&sys.eos, temp, &spec, Some(Pressure::from_reduced(pref * fac)), g.as_ref(), Default::default())
+                    } else {
+                        Vle::dew_point(&sys.eos, temp, &spec, Some(Pressure::from_reduced(pref * fac)), g.as_ref(), Default::default())
+                    }
+                });
+                let res = r.map(|vle| {
+                    let mut bad = common_checks_tol(&vle, Some(t), worst, tol);
+                    let ph = if bubble { vle.liquid() } else { vle.vapor() };
+                    let dx = (0..2).map(|i| (ph.molefracs[i] - spec[i]).abs()).fold(0.0, f64::max);
+                    if !(dx <= TOL_X) {
+                        bad.push(format!("composition {:?} of the specified phase is not the specified {:?}", ph.molefracs.to_vec(), spec.to_vec()));
+                    }
+                    if !bad.is_empty() {
+                        bad.push(format!("[returned vapor(): {}; liquid(): {}]", phase_json(vle.vapor()), phase_json(vle.liquid())));
+                    }
+                    bad
+                });
+                record(worst, kind, res, false, json!({"p_init": pref * fac, "p_init_over_true_pressure": fac, "composition_guess": g.as_ref().map(|a| a.to_vec())}));
+            }
+        }
+        // pressure specified, temperature guess off by -15 .. +10 %
+        for k in 0..2 {
+            let tf = if k == 0 { rng.range(0.85, 0.95) } else { rng.range(1.04, 1.10) };
+            let g = &guesses[rng.below(4)];
+            for bubble in [true, false] {
+                let pref = if bubble { pb } else { pd };
+                let kind = if bubble { "bubble_p_poor_guess" } else { "dew_p_poor_guess" };
+                let r = run_guard(|| {
+                    if bubble {
+                        Vle::bubble_point(&sys.eos, Pressure::from_reduced(pref), &spec, Some(Temperature::from_reduced(t * tf)), g.as_ref(), Default::default())
+                    } else {
+                        Vle::dew_point(&sys.eos, Pressure::from_reduced(pref), &spec, Some(Temperature::from_reduced(t * tf)), g.as_ref(), Default::default())
+                    }
+                });
+                let mut sig = json!(null);
+                let res = r.map(|vle| {
+                    let mut bad = common_checks_tol(&vle, None, worst, tol);
+                    let ph = if bubble { vle.liquid() } else { vle.vapor() };
+                    let dx = (0..2).map(|i| (ph.molefracs[i] - spec[i]).abs()).fold(0.0, f64::max);
+                    if !(dx <= TOL_X) {
+                        bad.push(format!("composition {:?} of the specified phase is not the specified {:?}", ph.molefracs.to_vec(), spec.to_vec()));
+                    }
+                    let only_pressure = bad.is_empty();
+                    let mut worst_dp = 0.0f64;
+                    for q in [vle.vapor(), vle.liquid()] {
+                        let pk = q.pressure(Contributions::Total).to_reduced();
+                        worst_dp = worst_dp.max((pk - pref).abs() / pref);
+                        if !(((pk - pref).abs() - tol.p_abs).max(0.0) / pref <= TOL_P_REL) {
+                            bad.push(format!("pressure {pk} is not the specified {pref}"));
+                        }
+                    }
+                    if !bad.is_empty() {
+                        // signature of the recorded oddity: a NEAR-trivial root (phases 1e-5 .. 1e-3 apart) far from the start temperature,
+                        // whose only defect is a pressure offset below 1e-6 relative
+                        let rv = vle.vapor().partial_density.to_reduced();
+                        let rl = vle.liquid().partial_density.to_reduced();
+                        let dist = rv.iter().zip(rl.iter()).fold(0.0f64, |a, (x, y)| (y / x - 1.0).abs().max(a));
+                        if only_pressure && dist < 1e-3 && worst_dp < 1e-6 {
+                            sig = json!({"class": "near_trivial_root_from_poor_temperature_guess_pressure_offset", "phase_distance": dist, "rel_pressure_offset": worst_dp});
+                        }
+                        bad.push(format!("[returned vapor(): {}; liquid(): {}]", phase_json(vle.vapor()), phase_json(vle.liquid())));
+                    }
+                    bad
+                });
+                record(worst, kind, res, false, json!({"t_init": t * tf, "composition_guess": g.as_ref().map(|a| a.to_vec()), "signature": sig}));
+            }
+        }
+    }
     // ---------------- flashes: other temperature / pressure than the initial state, State::tp_flash, options, drivers
     if let Some(fl0) = flash {
         let feed = Moles::from_reduced(arr1(&[x * ntot, (1.0 - x) * ntot]));
@@ -1152,6 +1235,60 @@ fn het_failure(c: &HetCase, kind: &str, what: String) -> Value {
         "detail": {"case": format!("{c:?}")}, "hetero_point": c.arg(), "s": 0.5, "ntot": 0.0, "Tc": [0.0, 0.0]})
 }
 
+/// Liquid-liquid "bubble" and "dew" points of a partially miscible system around its heteroazeotrope at T: pressure guess above
+/// the three-phase pressure, composition guess = the other liquid.  Specified phase = the water-rich or the hydrocarbon-rich
+/// liquid, in bubble_point (specified phase must come back as liquid()) and in dew_point (as vapor()), T- and p-specified.
+/// Deterministic in (other, t): `--lle-point "other|T"` replays it.
+fn lle_points(eos: &Arc<Eos>, other: &str, t: f64, counts: &mut [usize; 2]) -> Vec<Value> {
+    let mut failures = Vec::new();
+    let temp = Temperature::from_reduced(t);
+    let Ok(h) = run_guard(|| Vlle::heteroazeotrope(eos, temp, (0.9999, 0.0001), None, SolverOptions::default(), Default::default())) else { return failures };
+    let p_het = h.vapor().pressure(Contributions::Total).to_reduced();
+    let (xw, xo) = (h.liquid1().molefracs.clone(), h.liquid2().molefracs.clone());
+    let mut worst = Worst { min_dist: f64::INFINITY, ..Default::default() };
+    let mut rng = Rng(t.to_bits() ^ 0x11E);
+    for (spec, guess, which) in [(&xo, &xw, "hydrocarbon-rich liquid specified"), (&xw, &xo, "water-rich liquid specified")] {
+        for bubble in [true, false] {
+            for tspec in [true, false] {
+                let pfac = rng.range(1.5, 6.0);
+                let p_lle = p_het * pfac;
+                let kind = format!("lle_{}_{}", if bubble { "bubble" } else { "dew" }, if tspec { "T" } else { "p" });
+                counts[0] += 1;
+                let r = run_guard(|| match (bubble, tspec) {
+                    (true, true) => Vle::bubble_point(eos, temp, spec, Some(Pressure::from_reduced(p_lle)), Some(guess), Default::default()),
+                    (false, true) => Vle::dew_point(eos, temp, spec, Some(Pressure::from_reduced(p_lle)), Some(guess), Default::default()),
+                    (true, false) => Vle::bubble_point(eos, Pressure::from_reduced(p_lle), spec, Some(Temperature::from_reduced(t + 2.0)), Some(guess), Default::default()),
+                    (false, false) => Vle::dew_point(eos, Pressure::from_reduced(p_lle), spec, Some(Temperature::from_reduced(t + 2.0)), Some(guess), Default::default()),
+                });
+                let Ok(vle) = r else { continue };
+                counts[1] += 1;
+                let tol = Tol { strict_roles: false, ..Tol::bubble_dew(1e-10) };
+                let mut bad = common_checks_tol(&vle, if tspec { Some(t) } else { None }, &mut worst, tol);
+                // bubble point: the specified phase is liquid(); dew point: the specified phase is vapor()
+                let ph = if bubble { vle.liquid() } else { vle.vapor() };
+                let dx = (0..2).map(|i| (ph.molefracs[i] - spec[i]).abs()).fold(0.0, f64::max);
+                if !(dx <= TOL_X) {
+                    bad.push(format!("{}: composition {:?} of {} is not the specified {:?}", which, ph.molefracs.to_vec(), if bubble { "liquid()" } else { "vapor()" }, spec.to_vec()));
+                }
+                if !tspec {
+                    for q in [vle.vapor(), vle.liquid()] {
+                        let pk = q.pressure(Contributions::Total).to_reduced();
+                        if !(((pk - p_lle).abs() - tol.p_abs).max(0.0) / p_lle <= TOL_P_REL) {
+                            bad.push(format!("pressure {pk} is not the specified {p_lle}"));
+                        }
+                    }
+                }
+                if !bad.is_empty() {
+                    bad.push(format!("[{which}, p_init or p_spec = {p_lle} = {pfac:.3} x three-phase pressure; returned vapor(): {}; liquid(): {}]", phase_json(vle.vapor()), phase_json(vle.liquid())));
+                    failures.push(json!({"key": {"pair": ["water_np", other], "kind": kind, "T": t, "x": spec[0]}, "what": bad.join("; "),
+                        "detail": {"which": which, "p": p_lle}, "lle_point": format!("{other}|{t:?}"), "s": 0.5, "ntot": 0.0, "Tc": [0.0, 0.0]}));
+                }
+            }
+        }
+    }
+    failures
+}
+
 fn hetero_search(out: &str, full: bool, seed: u64) -> (Vec<Value>, Value, Vec<(String, Vec<Value>)>) {
     let mut rng = Rng(seed ^ 0x4E7E40);
     let mut failures = Vec::new();
@@ -1160,6 +1297,7 @@ fn hetero_search(out: &str, full: bool, seed: u64) -> (Vec<Value>, Value, Vec<(S
     goals.v.push_str("Open Scope R_scope.\n");
     let mut files = Vec::new();
     let mut samples = Vec::new();
+    let mut lle_counts = [0usize; 2];
     let others: Vec<&str> = if full { vec!["hexane", "pentane", "heptane", "octane", "cyclohexane", "benzene", "toluene", "decane"] } else { vec!["hexane", "heptane", "cyclohexane"] };
     let x_inits = [(0.9999, 0.0001), (0.9999, 0.01), (0.9999, 0.03), (0.999, 0.001), (0.99, 0.02)];
     let n_t = if full { 5 } else { 2 };
@@ -1194,6 +1332,7 @@ fn hetero_search(out: &str, full: bool, seed: u64) -> (Vec<Value>, Value, Vec<(S
                     }
                 }
             }
+            failures.extend(lle_points(&eos, other, t, &mut lle_counts));
             let Some(b) = base else { continue };
             let p_het = b.vapor().pressure(Contributions::Total).to_reduced();
             let (xl1, xl2) = (b.liquid1().molefracs[0], b.liquid2().molefracs[0]);
@@ -1296,7 +1435,7 @@ fn hetero_search(out: &str, full: bool, seed: u64) -> (Vec<Value>, Value, Vec<(S
         "heteroazeotropes_attempted": st.attempted, "heteroazeotropes_found_and_checked": st.found,
         "worst_residual_norm_over_requested_tolerance": st.worst_res_over_tol, "worst_ln_f_difference_over_allowed": st.worst_dlnf_times_t_over_tol,
         "worst_pressure_difference_over_allowed": st.worst_dp_over_tol, "worst_temperature_difference_between_phases": st.worst_dt,
-        "binary_vlle_states_checked": st.diagram_states, "results_at_negative_pressure_(metastable,_counted)": st.negative_pressure, "samples": samples,
+        "binary_vlle_states_checked": st.diagram_states, "liquid_liquid_bubble_dew_points_attempted": lle_counts[0], "liquid_liquid_bubble_dew_points_found_and_checked": lle_counts[1], "results_at_negative_pressure_(metastable,_counted)": st.negative_pressure, "samples": samples,
         "ranges": "water_np + alkane/aromatic (k_ij = 0), T in [300,400] K, 5 start compositions, T- and p-specified, guesses off by up to 20 K / 20 %, tol default/1e-6/1e-10, asymmetric bubble/dew options; an error is not a violation (no existence clause for three-phase equilibria)"});
     (failures, stats, files)
 }
@@ -1330,6 +1469,14 @@ fn main() {
             }
         }
         cli.write_impl(&json!({"property": "C05", "point": pt, "failures": r.failures, "counts": counts.to_vec(), "diagnostics": diag}));
+        return;
+    }
+    if let Some(lp) = cli.opt("--lle-point") {
+        let f: Vec<&str> = lp.split('|').collect();
+        let eos = hetero_eos(f[0]).unwrap();
+        let mut c = [0usize; 2];
+        let failures = lle_points(&eos, f[0], f[1].parse().unwrap(), &mut c);
+        cli.write_impl(&json!({"property": "C05", "lle_point": lp, "attempted_found": c.to_vec(), "failures": failures}));
         return;
     }
     if let Some(hp) = cli.opt("--hetero-point") {
